@@ -1285,6 +1285,8 @@ def tuples_to_lists(value):
     """
     if isinstance(value, (list, tuple)):
         return [tuples_to_lists(v) for v in value]
+    if isinstance(value, dict):
+        return {k: tuples_to_lists(v) for k, v in value.items()}
     return value
 
 
